@@ -13,6 +13,8 @@ Definition iofs_stat_validates : Z := 0.
 Definition iofs_sub_validates : Z := 0.
 (* iofs.go IOFS.Sub: 1 iff Sub(".") returns the receiver itself *)
 Definition iofs_sub_dot_self : Z := 0.
+(* regexpfs.go RegexpFile.Readdir: 1 iff a page (n > 0) whose entries are all filtered out is replaced by the next one *)
+Definition regexp_readdir_refills : Z := 0.
 (* iofs.go FromIOFS.OpenFile: permission error iff flag&MASK != 0 (0 = the flag is ignored) *)
 Definition fromiofs_openfile_mask : Z := 0.
 (* path.go Walk: 1 iff a final filepath.SkipDir is converted into nil (as path/filepath.Walk does) *)
